@@ -36,7 +36,7 @@ fn copy_dir(src: &str, dst: &str) {
     }
 }
 
-fn read_records(dir: &str) -> Vec<(u64, u64, u64, u8)> {
+pub fn read_records(dir: &str) -> Vec<(u64, u64, u64, u8)> {
     let mut files: Vec<std::path::PathBuf> = vec![];
     if let Ok(rd) = std::fs::read_dir(format!("{}/oplog", dir)) {
         for e in rd.flatten() {
